@@ -2,6 +2,7 @@ package filters
 
 import (
 	"bytes"
+	"fmt"
 	"io"
 
 	"golang.org/x/image/ccitt"
@@ -21,6 +22,15 @@ func CCITTFaxDecode(data []byte, params Params) ([]byte, error) {
 	rows := getIntParam(params, "Rows", 0)
 	k := getIntParam(params, "K", 0)
 	blackIs1 := getBoolParam(params, "BlackIs1", false)
+
+	// The geometry comes from the file: a zero or negative width makes the
+	// decoder produce empty rows forever, an absurd one allocates per row.
+	if columns < 1 || columns > maxCCITTDimension {
+		return nil, fmt.Errorf("invalid CCITTFax Columns: %d", columns)
+	}
+	if rows < 0 || rows > maxCCITTDimension {
+		return nil, fmt.Errorf("invalid CCITTFax Rows: %d", rows)
+	}
 
 	// Determine subformat from K parameter
 	// K < 0: pure Group 4
@@ -42,8 +52,17 @@ func CCITTFaxDecode(data []byte, params Params) ([]byte, error) {
 	}
 
 	reader := ccitt.NewReader(bytes.NewReader(data), ccitt.MSB, sf, columns, rows, opts)
-	return io.ReadAll(reader)
+	out, err := io.ReadAll(io.LimitReader(reader, maxCCITTOutput+1))
+	if err == nil && len(out) > maxCCITTOutput {
+		return nil, fmt.Errorf("CCITTFax data decodes to more than %d bytes", maxCCITTOutput)
+	}
+	return out, err
 }
+
+const (
+	maxCCITTDimension = 1 << 20   // largest accepted Columns / Rows
+	maxCCITTOutput    = 256 << 20 // largest accepted decoded image
+)
 
 // getBoolParam extracts a boolean parameter from Params, returning defaultValue
 // if the parameter is missing or cannot be converted to a boolean.
